@@ -193,6 +193,8 @@ func runC19(r *Runner) string {
 		{"storm"},
 		{"mnemonic"},
 		{"txparse", "sighash"},
+		{"txparsewide"},
+		{"txparsewide", "txparse", "storm"},
 		{"rpc"},
 	}
 	runs := r.N(80, 900)
